@@ -21,9 +21,9 @@ PROP = "C11"
 THEOREMS = ["C11_tree", "C11_again", "C11_single_leaf", "C11_fragment_inhabited", "C11_tree_with_escaped_mappings", "C11_fragment_included",
             "C11_roundtrip_with_paths", "C11_with_paths_is_what_the_api_builds", "C11_with_paths_includes_literals",
             "C11_nested_leaf_roundtrip", "C11_nested_list_roundtrip", "C11_nested_mapping_roundtrip", "C11_nested_path_key_refused",
-            "C11_nested_tree_roundtrip_partial"]
+            "C11_nested_tree_roundtrip_partial", "C11_nested_tree_roundtrip", "C11_nested_fragment_includes_the_others"]
 FACT_LEMMAS = ["C11Proof / C09Proof table facts (closed computations on the generated tables)", "Tie.tie_build"]
-DEPENDS = ['Py.v', 'Lang.v', 'Defs.v', 'Cond.v', 'Dsl.v', 'Check.v', 'DocSem.v', 'Inst.v', 'Gen/TablesGen.v', 'Gen/CallablesGen.v', 'Gen/SpecGen.v', 'Path.v', 'Cast.v', 'Str.v', 'SpecDefs.v', 'RuleDefs.v', 'Rule.v', 'Spec.v', 'SpecIO.v', 'Eq.v', 'RunSpec.v', 'SpecSpell.v', 'RuleTerms.v', 'Proofs/Tie.v', 'Proofs/PyFacts.v', 'Proofs/C01Proof.v', 'Proofs/C02Proof.v', 'Proofs/RuleProof.v', 'Proofs/C09Proof.v', 'Proofs/C11Proof.v', 'Proofs/C11EscProof.v', 'PathSpec.v', 'Proofs/C03Proof.v', 'Proofs/C04Proof.v', 'Proofs/C10Proof.v', 'Proofs/C14Proof.v', 'Proofs/C12Proof.v', 'Proofs/C11PathProof.v', 'NestedArgs.v', 'NestedIO.v', 'Proofs/C11NestedProof.v', 'Properties/C11.v']
+DEPENDS = ['Py.v', 'Lang.v', 'Defs.v', 'Cond.v', 'Dsl.v', 'Check.v', 'DocSem.v', 'Inst.v', 'Gen/TablesGen.v', 'Gen/CallablesGen.v', 'Gen/SpecGen.v', 'Path.v', 'Cast.v', 'Str.v', 'SpecDefs.v', 'RuleDefs.v', 'Rule.v', 'Spec.v', 'SpecIO.v', 'Eq.v', 'RunSpec.v', 'SpecSpell.v', 'RuleTerms.v', 'Proofs/Tie.v', 'Proofs/PyFacts.v', 'Proofs/C01Proof.v', 'Proofs/C02Proof.v', 'Proofs/RuleProof.v', 'Proofs/C09Proof.v', 'Proofs/C11Proof.v', 'Proofs/C11EscProof.v', 'PathSpec.v', 'Proofs/C03Proof.v', 'Proofs/C04Proof.v', 'Proofs/C10Proof.v', 'Proofs/C14Proof.v', 'Proofs/C12Proof.v', 'Proofs/C11PathProof.v', 'NestedArgs.v', 'NestedIO.v', 'Proofs/C11NestedProof.v', 'Proofs/C11NestedFullProof.v', 'Properties/C11.v']
 ASSUMPTIONS = ["Layer P models CPython's operators (pysem)", "json.dumps / json.loads text is outside the model (real JSON text is used by the harness)"]
 
 PATHY = [{"path": 1}, {"path": ["a"]}, {"path.first": ["a", 0]}, {"xpath": True}, {"a": {"path": [1]}}, [{"path": ["a"]}, 2],
@@ -165,11 +165,24 @@ def nested_cases(g, pg, n):
                 arg = {kk: item() for kk in keys}
             m = g.r.choice(["in_", "not_in", "equal_to", "not_equal_to"]) if not isinstance(arg, dict) else g.r.choice(["equal_to", "not_equal_to", "in_"])
             return Leaf(g.r.choice(["Value", "Value", "Key", "Index"]) if m in ("in_", "not_in", "equal_to", "not_equal_to") else "Value", m, [arg])
+        def other_leaf():
+            # leaves of the other fragments, for mixed trees: a data path as an argument of a several-parameter callable, a plain literal
+            k = g.r.random()
+            if k < 0.5:
+                return Leaf("Value", "in_range", [], {"lower": item() if g.r.random() < 0.6 else 1, "upper": 5})
+            if k < 0.8:
+                return Leaf("Value", "equal_to", [copy.deepcopy(g.r.choice(lits))])
+            return Leaf("Value", "keys_contain_any_of", [g.r.choice(["a", "b", 1]), "k"])
         t = leaf()
-        if g.r.random() < 0.3:
-            t = Bin(g.r.choice(["and", "or", "xor"]), t, leaf())
+        if g.r.random() < 0.4:
+            t = Bin(g.r.choice(["and", "or", "xor"]), t, leaf() if g.r.random() < 0.5 else other_leaf())
             if t.a.cls != t.b.cls and {t.a.cls, t.b.cls} == {"Key", "Index"}:
                 t.b.cls = t.a.cls
+            if g.r.random() < 0.3:
+                t = Bin(g.r.choice(["and", "or"]), other_leaf(), t)
+                if {l.cls for l in t.leaves()} >= {"Key", "Index"}:
+                    for l in t.leaves():
+                        l.cls = "Value"
 
         def impl():
             c = t.build()
